@@ -46,9 +46,9 @@ type gInner struct {
 }
 type gSum struct {
 	tl.SumType
-	X gInner                `tlSumType:"0a0b0c0d"`
+	X gInner               `tlSumType:"0a0b0c0d"`
 	Y struct{ V []uint64 } `tlSumType:"01020304"`
-	Z uint32                `tlSumType:"zz"`
+	Z uint32               `tlSumType:"zz"`
 }
 type gPtr struct {
 	P *uint32
